@@ -23,6 +23,8 @@ import (
 
 type Engine struct{}
 
+type pf struct{ prop, msg string }
+
 type op struct {
 	Kind   string // ingest flush iterate
 	P      dbk.Point
@@ -36,14 +38,23 @@ type script struct {
 	Ops    []op
 }
 
-func genScript(r *hk.Rng, exotic bool) *script {
+func genScript(r *hk.Rng, exotic bool, retentionMode bool) *script {
 	sc := &script{S: dbk.GenSchema(r, "t")}
+	if retentionMode {
+		sc.S.Retention = sc.S.Res * time.Duration(hk.Pick(r, []int{1, 2, 3, 4, 6}))
+	}
 	sc.Sorted = r.Chance(1, 5)
 	s := sc.S
 	cur := dbk.Base
 	n := r.Range(3, 28)
+	if retentionMode {
+		n = r.Range(20, 60)
+	}
 	for i := 0; i < n; i++ {
 		c := r.Intn(20)
+		if retentionMode && c >= 17 && r.Chance(2, 3) {
+			c = 15 // more flushes, fewer scans
+		}
 		switch {
 		case c < 14:
 			// timestamps: around the current head, on boundaries, late, far ahead
@@ -194,6 +205,21 @@ func addSeq(out map[string]string, ks string, fi int, n *gen.Node, s encoding.Se
 	}
 }
 
+func parseViewKey(k string, ks *string, end *int64, fi *int) {
+	// "<key>|<end>|<field>"
+	i := len(k) - 1
+	for i >= 0 && k[i] != '|' {
+		i--
+	}
+	j := i - 1
+	for j >= 0 && k[j] != '|' {
+		j--
+	}
+	*ks = k[:j]
+	fmt.Sscan(k[j+1:i], end)
+	fmt.Sscan(k[i+1:], fi)
+}
+
 func diffViews(a, b map[string]string) string {
 	for k, v := range a {
 		if w, ok := b[k]; !ok {
@@ -224,7 +250,8 @@ func (Engine) Run(ctx *hk.RunCtx) error {
 
 func oneCase(ctx *hk.RunCtx, r *hk.Rng, idx uint64) error {
 	exotic := r.Chance(1, 3)
-	sc := genScript(r, exotic)
+	retentionMode := ctx.Mode == "retention"
+	sc := genScript(r, exotic, retentionMode)
 	s := sc.S
 	q, err := dbk.ParseTable(s)
 	if err != nil {
@@ -256,7 +283,8 @@ func oneCase(ctx *hk.RunCtx, r *hk.Rng, idx uint64) error {
 
 	mops := []interface{}{}
 	implOuts := []interface{}{}
-	var propFail []string
+	var propFail []pf
+	gone := map[string]bool{} // (key|period|field) seen absent from disk after a truncating flush while strictly expired
 	mpoints := []interface{}{}
 	nIngest, nFlush := 0, 0
 	for _, o := range sc.Ops {
@@ -282,15 +310,53 @@ func oneCase(ctx *hk.RunCtx, r *hk.Rng, idx uint64) error {
 			live := db.VerifNow() - int64(s.Retention)
 			before, _ := db.Scan(s.Table, nil, true)
 			vBefore := semView(all, before, s.Res, live)
+			vBefore0 := semView(all, before, s.Res, -1<<62)
+			fcBefore := db.VerifFlushCount(s.Table)
 			db.VerifForceFlush(s.Table)
 			after, _ := db.Scan(s.Table, nil, true)
 			disk, _ := db.Scan(s.Table, nil, false)
 			vAfter := semView(all, after, s.Res, live)
 			vDisk := semView(all, disk, s.Res, live)
 			if d := diffViews(vBefore, vAfter); d != "" {
-				propFail = append(propFail, fmt.Sprintf("flush %d changed the memstore-inclusive view: %s", nFlush, d))
+				propFail = append(propFail, pf{"C03", fmt.Sprintf("flush %d changed the memstore-inclusive view: %s", nFlush, d)})
 			} else if d := diffViews(vAfter, vDisk); d != "" {
-				propFail = append(propFail, fmt.Sprintf("after flush %d the disk-only view differs from the memstore-inclusive one: %s", nFlush, d))
+				propFail = append(propFail, pf{"C03", fmt.Sprintf("after flush %d the disk-only view differs from the memstore-inclusive one: %s", nFlush, d)})
+			}
+			// C14 oracles (implementation only)
+			tbound := db.VerifNow() - int64(s.Retention)
+			fcAfter := db.VerifFlushCount(s.Table)
+			truncating := fcAfter > fcBefore && (fcAfter-1)%10 == 9
+			allDisk := semView(all, disk, s.Res, -1<<62)
+			if truncating {
+				ctx.Res.Hit("truncating-flush")
+				for k := range allDisk {
+					var ks string
+					var end int64
+					var fi int
+					parseViewKey(k, &ks, &end, &fi)
+					if end <= tbound-int64(s.Res) {
+						propFail = append(propFail, pf{"C14", fmt.Sprintf("period %s expired (ends at or before now-retention-resolution) but is still on disk after a truncating flush", k)})
+						break
+					}
+				}
+				// remember strictly expired periods that are gone now
+				for k := range vBefore0 {
+					var ks string
+					var end int64
+					var fi int
+					parseViewKey(k, &ks, &end, &fi)
+					if end < tbound {
+						if _, still := allDisk[k]; !still {
+							gone[k] = true
+						}
+					}
+				}
+			}
+			for k := range allDisk {
+				if gone[k] {
+					propFail = append(propFail, pf{"C14", fmt.Sprintf("period %s had expired and been truncated from disk but is back", k)})
+					break
+				}
 			}
 			nFlush++
 			mops = append(mops, map[string]interface{}{"op": "flush", "sorted": sc.Sorted})
@@ -344,12 +410,12 @@ func oneCase(ctx *hk.RunCtx, r *hk.Rng, idx uint64) error {
 			if diffViews(vFinal, vDup) == "" {
 				ctx.Res.KnownFinding("C01-array-double")
 			} else {
-				propFail = append(propFail, "final view differs from the raw-point spec (impl vs spec): "+d)
+				propFail = append(propFail, pf{"C01", "final view differs from the raw-point spec (impl vs spec): " + d})
 			}
 		}
 	}
-	for _, pf := range propFail {
-		ctx.Res.Disagree(hk.Disagreement{Kind: "property", Case: req, Detail: pf, PropertyFails: true, Index: idx})
+	for _, f := range propFail {
+		ctx.Res.Disagree(hk.Disagreement{Kind: "property", Case: req, Detail: f.prop + ": " + f.msg, PropertyFails: true, Prop: f.prop, Index: idx})
 	}
 	ctx.Res.Hit(fmt.Sprintf("flushes:%d", min(nFlush, 5)))
 	if exotic {
@@ -364,9 +430,14 @@ func oneCase(ctx *hk.RunCtx, r *hk.Rng, idx uint64) error {
 			Rows    json.RawMessage `json:"rows"`
 			Stopped bool            `json:"stopped"`
 		} `json:"outs"`
+		ProjMismatch []interface{} `json:"projMismatch"`
 	}
 	if err := json.Unmarshal(out, &mo); err != nil {
 		return err
+	}
+	if len(mo.ProjMismatch) > 0 {
+		ctx.Res.Disagree(hk.Disagreement{Kind: "model-vs-model", Case: req, Model: mo.ProjMismatch,
+			Detail: "one-column model (Model/Column.lean) and store model disagree on a column", Index: idx})
 	}
 	for i, io := range implOuts {
 		if io == nil {
